@@ -41,3 +41,49 @@ PROPS["C11"] = {
         rapid("rapid", "^TestProp", 200000, shards=5),
     ],
 }
+
+PROPS["C01"] = {
+    "pkg": "c01",
+    "level": "exploration",
+    "rule": ("rapid draws hostile archives (1-8 entries: names over {a,b,d,l,m,.,..,'',dst,dst-evil} with leading '/', './', doubled and "
+             "trailing slashes, absolute names aimed at arena canaries, 'missing/../x' forms, long names; types file/dir/symlink/hardlink/"
+             "fifo/char/pax-global/unknown; link targets relative, absolute, through earlier entries, sibling-prefix; repeated and extended "
+             "names; hand-written and archive/tar headers) x dst pre-populated or empty x dst spelling (clean, trailing slash, through a "
+             "symlinked parent) x fault plan (none, truncation or read error at a drawn offset) x optional allow-list. Oracle: snapshot "
+             "(type, mode, size, mtime, ctime, inode, nlink, link target, content hash) of the arena R/l1/l2/l3/{dst,dst-evil,dstX,dst.bak,"
+             "outside,...} excluding dst, before vs after Unpack, whatever Unpack returns. Non-trivial = some entry name or link target "
+             "leaves dst lexically, an entry sits at or below an earlier link's name, or the stream is faulted; distinct by case hash."),
+    "assumptions": ["dst exists and contains no symlinks placed by the caller", "atime is ignored (the snapshot walk itself changes it)"],
+    "quick": [rapid("rapid", "^TestPropContainment$", 1800, shards=4)],
+    "thorough": [rapid("rapid", "^TestPropContainment$", 30000, shards=14), fuzz("FuzzUnpackContainment", "120s")],
+}
+
+PROPS["C04"] = {
+    "pkg": "c04",
+    "level": "exploration",
+    "rule": ("rapid draws archives biased to cooperating link entries (60% links; targets through earlier entries' names, '.', '..' runs, "
+             "sibling-prefix and absolute targets; optional AllowSymlinkTarget) - oracle: after Unpack (nil or error) every symlink found "
+             "under dst is resolved component by component with Lstat/Readlink (lexically past the first missing component, hop limit 40) and "
+             "must land inside the real path of dst unless allow-listed. Second sub-check: a benign archive with exactly one link that leaves "
+             "dst directly (relative '..' run by depth, absolute, sibling-prefix, {DST}/..) must be refused with *IllegalSlugError and the link "
+             "must not exist afterwards. Non-trivial = allow-list case, sibling-prefix target, a link target traversing another link's name, "
+             "or the one-offending-link class; distinct by case hash."),
+    "assumptions": ["dst has no pre-existing symlinks", "absolute targets that point into dst are not required to be rejected (existing tested behaviour)"],
+    "quick": [rapid("links", "^TestPropLinks$", 2000, shards=3), rapid("reject", "^TestPropReject$", 2500, shards=1)],
+    "thorough": [rapid("links", "^TestPropLinks$", 30000, shards=12), rapid("reject", "^TestPropReject$", 30000, shards=2)],
+}
+
+PROPS["C02"] = {
+    "pkg": "c02",
+    "level": "exploration",
+    "rule": ("rapid draws trees (<=22 nodes, depth<=5: files with modes 0000-0777 and empty/64KiB bodies, directories incl. empty and "
+             "read-only, relative in-tree links to files/dirs/dangling/chained, fifos and unix sockets; names plain, ignore-relevant, awkward, "
+             "non-ASCII, 120-255 byte components; mtimes with .0/.4/.5/.6/.999999999 fractions, pre-1970 and post-2038) x {deref} x {ignore} "
+             "- oracle: Unpack(Pack(tree)) into an empty directory has the same relative paths, types, contents, Perm bits, link targets and "
+             "(files, dirs) mtime == source mtime rounded to the second; omissions = special files and what the reference ignore matcher "
+             "excludes. Root pass and a pass as uid 65534. Non-trivial = tree has an empty dir, link, special file, long/non-ASCII name, mode "
+             "other than 0644/0755 or fractional mtime; distinct by case hash."),
+    "assumptions": ["the root directory's own mode/time is not archived", "link mtimes are exempt (property text)", "with ignore on, directories the reference excludes are compared leniently (C03 judges them)"],
+    "quick": [rapid("root", "^TestPropRoundTrip$", 1500, shards=3), rapid("unpriv", "^TestPropRoundTrip$", 1200, shards=1, uid=65534)],
+    "thorough": [rapid("root", "^TestPropRoundTrip$", 12000, shards=10), rapid("unpriv", "^TestPropRoundTrip$", 12000, shards=4, uid=65534)],
+}
